@@ -242,3 +242,266 @@ Theorem C18_nonvacuous_float_mean_in_1_2 :
   (Z.of_nat (length rs) <= 2 ^ 52)%Z /\
   bits_of_f (f_mu (fslot_run prior rs)) = 4609152743636992000%Z.
 Proof. exact float_mean_in_1_2_satisfiable. Qed.
+
+(* ================= (G) the adaptive selector itself: DynamicSelective as a state machine (Model/Selector.v) =================
+   S = state of one slot machine, R = reward; rows of slots per search state (best known / diverse); sampler outputs xs are
+   arbitrary f64::total_cmp keys (NaN and infinities from a misbehaving sampler included), ties an arbitrary tie stream. *)
+From VRP Require Import Model.Selector Model.SelectorF Model.Termination2 Model.TermF.
+From VRP Require Import Proofs.SelectorP Proofs.RewardFloatP Proofs.SelectorFP Proofs.Termination2P Proofs.TermFloatP.
+Local Open Scope Z_scope.
+
+(* selection is total and picks a configured operator whose sampled value is maximal *)
+Theorem C18_selector_selection_total_and_configured : forall (S : Type) (nops : nat) (s : sel S) (from : sstate) (xs : list Z) (ties : list bool),
+  (length (sel_best s) = nops /\ length (sel_div s) = nops) -> (0 < nops)%nat ->
+  exists i, sel_select s from xs ties = Some i /\ (i < nops)%nat /\ forall k, (k < nops)%nat -> nth k xs 0 <= nth i xs 0.
+Proof. exact @sel_select_spec. Qed.
+(* without a configured operator the expect("cannot get slot machine") of the first search panics *)
+Theorem C18_selector_no_operator_panics : forall (S R : Type) (snew : S) (supd : S -> R -> S) (E O : Type) (from_of : E -> O -> sstate)
+    (take : E -> option Z -> sstate -> nat -> O -> feedback R) e o p jobs rest,
+  sel_run supd from_of take (sel_new snew 0) ((e, (o, p) :: jobs) :: rest) = None.
+Proof. exact @sel_run_no_operators. Qed.
+(* update changes exactly the chosen slot of the row of the from-state (by SlotMachine::update with the reward), and the duration median *)
+Theorem C18_selector_update_only_chosen_slot : forall (S R : Type) (supd : S -> R -> S) (nops : nat) (s : sel S) (fb : feedback R),
+  (length (sel_best s) = nops /\ length (sel_div s) = nops) -> (fb_idx fb < nops)%nat ->
+  exists s' slot, sel_update supd s fb = Some s' /\ (length (sel_best s') = nops /\ length (sel_div s') = nops) /\
+    nth_error (sel_row (fb_from fb) s) (fb_idx fb) = Some slot /\
+    nth_error (sel_row (fb_from fb) s') (fb_idx fb) = Some (supd slot (fb_reward fb)) /\
+    (forall st k, (st <> fb_from fb \/ k <> fb_idx fb) -> nth_error (sel_row st s') k = nth_error (sel_row st s) k) /\
+    sel_med s' = rem_add (sel_med s) (fb_duration fb).
+Proof. exact @sel_update_spec. Qed.
+(* every search of a round (search: one; search_many: all against the same state) uses the row of the state derived from its own
+   solution, the median of the state the round started with, and the arg-max of its own sampled values *)
+Theorem C18_selector_search_uses_row_of_from_state : forall (S R E O : Type) (from_of : E -> O -> sstate)
+    (take : E -> option Z -> sstate -> nat -> O -> feedback R),
+  (forall e m from idx o, fb_from (take e m from idx o) = from) -> (forall e m from idx o, fb_idx (take e m from idx o) = idx) ->
+  forall (s : sel S) e jobs fbs, sel_searches from_of take s e jobs = Some fbs ->
+  Forall2 (fun job fb => fb_from fb = from_of e (fst job) /\
+                         fb = take e (rem_median (sel_med s)) (from_of e (fst job)) (fb_idx fb) (fst job) /\
+                         sel_select s (from_of e (fst job)) (pk_xs (snd job)) (pk_ties (snd job)) = Some (fb_idx fb)) jobs fbs.
+Proof. exact @sel_searches_each. Qed.
+(* a whole history from SearchAgent::new: no panic, one slot per operator in both rows, every feedback names a configured
+   operator, and slot k of row st is the fold of SlotMachine::update over exactly the rewards routed to (st, k), in order *)
+Theorem C18_selector_history_slots_are_routed_runs : forall (S R : Type) (snew : S) (supd : S -> R -> S) (E O : Type) (from_of : E -> O -> sstate)
+    (take : E -> option Z -> sstate -> nat -> O -> feedback R),
+  (forall e m from idx o, fb_from (take e m from idx o) = from) -> (forall e m from idx o, fb_idx (take e m from idx o) = idx) ->
+  forall (nops : nat) (rounds : list (E * list (O * pick))), (0 < nops)%nat ->
+  exists s' fbs, sel_run supd from_of take (sel_new snew nops) rounds = Some (s', fbs) /\
+    (length (sel_best s') = nops /\ length (sel_div s') = nops) /\
+    Forall (fun fb => (fb_idx fb < nops)%nat) fbs /\
+    forall st k, (k < nops)%nat -> nth_error (sel_row st s') k = Some (fold_left supd (routed st k fbs) snew).
+Proof. exact @sel_run_from_new. Qed.
+(* exact arithmetic, any objective `ord`: the reward SearchAction::take hands to update *)
+Theorem C18_selector_reward_range : forall (ord : list Q -> list Q -> comparison) (e : qenv) (m : option Z) (o : qoutcome),
+  (0 <= q_reward ord e m o <= 9 * (2 * qnat (length (qo_new o)) + 1))%Q.
+Proof. exact q_reward_bounds. Qed.
+(* exact arithmetic: for every history (any objective, sampler outputs, tie streams, durations) every slot of both rows is a valid
+   learning state: n = number of routed rewards, alpha = 1 + n/2 > 0, beta >= 10, v >= 0, mean within the hull [0, 9(2N+1)] *)
+Theorem C18_selector_state_valid : forall (ord : list Q -> list Q -> comparison) (nops N : nat) (rounds : list (qenv * list (qoutcome * pick))),
+  (0 < nops)%nat ->
+  Forall (fun round => Forall (fun job => (length (qo_new (fst job)) <= N)%nat) (snd round)) rounds ->
+  exists s' fbs, qsel_run ord nops rounds = Some (s', fbs) /\
+    Forall (fun fb => (fb_idx fb < nops)%nat /\ (0 <= fb_reward fb <= 9 * (2 * qnat N + 1))%Q) fbs /\
+    forall st k, (k < nops)%nat ->
+      exists sl, nth_error (sel_row st s') k = Some sl /\ sl = slot_run 1 (routed st k fbs) /\
+        s_n sl = length (routed st k fbs) /\ (s_alpha sl == 1 + qn (s_n sl) / 2)%Q /\ (0 < s_alpha sl)%Q /\ (10 <= s_beta sl)%Q /\
+        (0 <= s_v sl)%Q /\ (routed st k fbs <> [] -> (0 <= s_mu sl <= 9 * (2 * qnat N + 1))%Q).
+Proof. exact qsel_state_valid. Qed.
+
+(* ---- binary64 level: the reward estimation (Model/SelectorF.v), |fitness| <= 2^1022 = `fit_ok` ---- *)
+Theorem C18_float_relative_value_range : forall a b : PrimFloat.float,
+  (abs a <=? 0x1p1022)%float = true -> (abs b <=? 0x1p1022)%float = true -> (a =? b)%float = false ->
+  PrimFloat.is_finite (frelv a b) = true /\ (0 <=? frelv a b)%float = true /\ (frelv a b <=? 2)%float = true.
+Proof. exact float_relative_value_range. Qed.
+Theorem C18_float_relative_distance_range : forall ord (fa fb : list PrimFloat.float),
+  forallb (fun x => (abs x <=? 0x1p1022)%float) fa = true -> forallb (fun x => (abs x <=? 0x1p1022)%float) fb = true ->
+  (Z.of_nat (length fa) < 2 ^ 50) ->
+  PrimFloat.is_finite (frel_dist ord fa fb) = true /\ (Rabs (B2R (Prim2B (frel_dist ord fa fb))) <= 2 * INR (length fa))%R.
+Proof. exact float_rel_dist_range. Qed.
+(* estimate_distance_reward: finite, 0 <= reward <= 3 (2N + 1): the exact-arithmetic bound holds bit for bit *)
+Theorem C18_float_distance_reward_range : forall best o1 o2 (fnew finit : list PrimFloat.float),
+  forallb (fun x => (abs x <=? 0x1p1022)%float) fnew = true -> forallb (fun x => (abs x <=? 0x1p1022)%float) finit = true ->
+  (forall fb, best = Some fb -> forallb (fun x => (abs x <=? 0x1p1022)%float) fb = true) ->
+  (Z.of_nat (length fnew) < 2 ^ 50) ->
+  let r := fdistance_reward best o1 o2 fnew finit in
+  PrimFloat.is_finite r = true /\ (0 <=? r)%float = true /\ (B2R (Prim2B r) <= 3 * (2 * INR (length fnew) + 1))%R.
+Proof. exact float_distance_reward_range. Qed.
+(* estimate_reward_perf_multiplier: for ALL inputs (NaN ratio, any durations) one of twelve constants in (0.5, 3] *)
+Theorem C18_float_perf_multiplier_range : forall ratio median duration imp,
+  let m := fperf_multiplier ratio median duration imp in
+  PrimFloat.is_finite m = true /\ (0x1p-1 <? m)%float = true /\ (m <=? 3)%float = true.
+Proof. exact float_perf_multiplier_range. Qed.
+(* SearchAction::take: finite, 0 <= reward <= 9 (2N + 1), inside the bound 2^480 of the slot-machine theorems (F) *)
+Theorem C18_float_reward_range : forall (ord : list PrimFloat.float -> list PrimFloat.float -> comparison) e median o (N : nat),
+  (forall fb, fe_best e = Some fb -> forallb (fun x => (abs x <=? 0x1p1022)%float) fb = true) ->
+  forallb (fun x => (abs x <=? 0x1p1022)%float) (fo_init o) = true -> forallb (fun x => (abs x <=? 0x1p1022)%float) (fo_new o) = true ->
+  (length (fo_new o) <= N)%nat -> (Z.of_nat N < 2 ^ 48) ->
+  let r := f_reward ord e median o in
+  PrimFloat.is_finite r = true /\ (0 <=? r)%float = true /\ (B2R (Prim2B r) <= 9 * (2 * INR N + 1))%R /\ (abs r <=? 0x1p480)%float = true.
+Proof. exact float_reward_range. Qed.
+(* the whole selector over binary64: every history with fitness magnitudes <= 2^1022, at most N < 2^48 objectives and at most
+   2^52 searches - every sampler output, every tie stream, every duration - runs without panic, feeds finite rewards in range to
+   update, and leaves every slot of both rows a finite valid learning state with a valid Gamma scale *)
+Theorem C18_selector_float_state_valid : forall (ord : list PrimFloat.float -> list PrimFloat.float -> comparison) (nops N : nat)
+    (rounds : list (fenv * list (foutcome * pick))),
+  (0 < nops)%nat -> (Z.of_nat N < 2 ^ 48) -> forallb (round_ok N) rounds = true -> (Z.of_nat (njobs rounds) <= 2 ^ 52) ->
+  exists s' fbs, fsel_run ord nops rounds = Some (s', fbs) /\ length fbs = njobs rounds /\
+    Forall (fun fb => (fb_idx fb < nops)%nat /\ PrimFloat.is_finite (fb_reward fb) = true /\
+                      (0 <=? fb_reward fb)%float = true /\ (abs (fb_reward fb) <=? 0x1p480)%float = true) fbs /\
+    forall st k, (k < nops)%nat ->
+      exists sl, nth_error (sel_row st s') k = Some sl /\ sl = fslot_run 1%float (routed st k fbs) /\
+        f_n sl = length (routed st k fbs) /\
+        PrimFloat.is_finite (f_alpha sl) = true /\ PrimFloat.is_finite (f_beta sl) = true /\
+        PrimFloat.is_finite (f_mu sl) = true /\ PrimFloat.is_finite (f_v sl) = true /\
+        (0 <? f_alpha sl)%float = true /\ (10 <=? f_beta sl)%float = true /\
+        (0 <? f_v sl)%float = true /\ (f_v sl <=? f_beta sl)%float = true /\
+        PrimFloat.is_finite (1 / f_beta sl)%float = true /\ (0 <? 1 / f_beta sl)%float = true.
+Proof. exact fsel_state_valid. Qed.
+Theorem C18_selector_float_sampler_arguments_valid : forall (ord : list PrimFloat.float -> list PrimFloat.float -> comparison) (nops N : nat)
+    (rounds : list (fenv * list (foutcome * pick))) (g : PrimFloat.float),
+  (0 < nops)%nat -> (Z.of_nat N < 2 ^ 48) -> forallb (round_ok N) rounds = true -> (Z.of_nat (njobs rounds) <= 2 ^ 52) ->
+  ((g =? 0) || (PrimFloat.is_finite g && (0x1p-1022 <=? g)))%float = true ->
+  exists s' fbs, fsel_run ord nops rounds = Some (s', fbs) /\
+    forall st k, (k < nops)%nat ->
+      exists sl shape scale mean sd, nth_error (sel_row st s') k = Some sl /\ fsample_args sl g = [shape; scale; mean; sd] /\
+        PrimFloat.is_finite shape = true /\ (0 <? shape)%float = true /\
+        PrimFloat.is_finite scale = true /\ (0 <? scale)%float = true /\
+        PrimFloat.is_finite mean = true /\ PrimFloat.is_finite sd = true /\ (0 <=? sd)%float = true.
+Proof. exact fsel_sampler_arguments_valid. Qed.
+(* non-vacuity of the hypotheses of (G): extreme admissible fitness values; a concrete history with both rows, search_many, a NaN
+   sampler output and a tie *)
+Theorem C18_nonvacuous_float_reward :
+  (abs 0x1p1022 <=? 0x1p1022)%float = true /\ (abs (-0x1p1022) <=? 0x1p1022)%float = true /\ (abs infinity <=? 0x1p1022)%float = false /\
+  (abs nan <=? 0x1p1022)%float = false /\ (abs 0x1.0000000000001p1022 <=? 0x1p1022)%float = false /\
+  frelv 0x1p1022 (-0x1p1022) = 2%float /\
+  fdistance_reward (Some [0x1p1022%float]) Lt Lt [(-0x1p1022)%float] [0x1p1022%float] = 9%float.
+Proof. exact float_reward_hypotheses_satisfiable. Qed.
+Theorem C18_nonvacuous_selector_float :
+  forallb (round_ok 1) ex_rounds = true /\ (Z.of_nat (njobs ex_rounds) <= 2 ^ 52) /\
+  match fsel_run flex 2 ex_rounds with
+  | Some (s, fbs) =>
+      map (fun fb => (fb_from fb, fb_to fb, fb_idx fb, bits_of_f (fb_reward fb))) fbs =
+        [(BestKnown, BestKnown, 1%nat, 4616752568008179712); (Diverse, BestKnown, 0%nat, 4622945017495814144); (BestKnown, Diverse, 1%nat, 0)] /\
+      map f_n (sel_best s) = [0%nat; 2%nat] /\ map f_n (sel_div s) = [1%nat; 0%nat]
+  | None => False
+  end.
+Proof. exact fsel_hypotheses_satisfiable. Qed.
+
+(* ================= (H) termination estimates and statistics over binary64 (Model/TermF.v) ================= *)
+(* MaxGeneration::estimate for every generation and limit below 2^63 (limit 0: x/0 is +inf or NaN, f64::min gives 1) *)
+Theorem C18_float_estimate_max_generation_unit : forall generation limit : Z,
+  (0 <= generation < 2 ^ 63) -> (0 <= limit < 2 ^ 63) ->
+  let r := fest_max_generation generation limit in
+  PrimFloat.is_finite r = true /\ (0 <=? r)%float = true /\ (r <=? 1)%float = true.
+Proof. exact fest_max_generation_unit. Qed.
+Theorem C18_float_estimate_max_generation_zero_limit : forall generation : Z, (0 <= generation < 2 ^ 63) ->
+  fest_max_generation generation 0 = 1%float.
+Proof. exact fest_max_generation_zero_limit. Qed.
+(* MaxTime::estimate for every finite elapsed time >= 0 and every limit that is NaN or has a clear sign bit (+0, denormals - the
+   quotient overflows to +inf -, +inf) *)
+Theorem C18_float_estimate_max_time_unit : forall elapsed limit : PrimFloat.float,
+  (PrimFloat.is_finite elapsed && (0 <=? elapsed)%float) = true -> (PrimFloat.is_nan limit || negb (get_sign limit)) = true ->
+  let r := fest_max_time elapsed limit in
+  PrimFloat.is_finite r = true /\ (0 <=? r)%float = true /\ (r <=? 1)%float = true.
+Proof. exact fest_max_time_unit. Qed.
+(* the restriction on the limit is needed: MaxTime::new(-0.0) estimates -inf (not a configuration a user writes; not a finding) *)
+Theorem C18_float_estimate_max_time_negative_zero_refuted :
+  (PrimFloat.is_nan (-0)%float || negb (get_sign (-0)%float)) = false /\
+  (PrimFloat.is_finite 0x1p-10%float && (0 <=? 0x1p-10)%float) = true /\ fest_max_time 0x1p-10 (-0)%float = neg_infinity.
+Proof. exact fest_max_time_negative_zero. Qed.
+(* time overflow: elapsed / limit = +inf, estimate 1 (non-vacuity of the denormal-limit case) *)
+Theorem C18_nonvacuous_float_estimate_max_time_overflow :
+  (PrimFloat.is_nan 0x1p-1074%float || negb (get_sign 0x1p-1074%float)) = true /\ (1 / 0x1p-1074)%float = infinity /\
+  fest_max_time 1 0x1p-1074%float = 1%float.
+Proof. exact fest_max_time_overflow_example. Qed.
+Theorem C18_float_estimate_composite_unit : forall es : list PrimFloat.float,
+  Forall (fun r => PrimFloat.is_finite r = true /\ (0 <=? r)%float = true /\ (r <=? 1)%float = true) es ->
+  let r := fest_composite es in PrimFloat.is_finite r = true /\ (0 <=? r)%float = true /\ (r <=? 1)%float = true.
+Proof. exact fest_composite_unit. Qed.
+(* get_variance_mean: finite for at most 2^30 values of magnitude <= 2^480 (no NaN, no overflow) *)
+Theorem C18_float_stats_variance_mean_finite : forall l : list PrimFloat.float,
+  (Z.of_nat (length l) <= 2 ^ 30) -> Forall (fun x => (abs x <=? 0x1p480)%float = true) l ->
+  PrimFloat.is_finite (fst (fvariance_mean l)) = true /\ PrimFloat.is_finite (snd (fvariance_mean l)) = true /\
+  (abs (snd (fvariance_mean l)) <=? 0x1p480)%float = true /\ (abs (fst (fvariance_mean l)) <=? 0x1p1022)%float = true.
+Proof. exact fvariance_mean_finite. Qed.
+Theorem C18_float_stats_cv_zero_mean : forall l : list PrimFloat.float,
+  (snd (fvariance_mean l) =? 0)%float = true -> fget_cv l = 0%float.
+Proof. exact fget_cv_zero_mean. Qed.
+(* relative_distance (distance.rs): finite and >= 0 *)
+Theorem C18_float_relative_distance_vector_range : forall a b : list PrimFloat.float,
+  Forall (fun x => PrimFloat.is_finite x = true /\ (Rabs (B2R (Prim2B x)) <= bpow radix2 1022)%R) a ->
+  Forall (fun x => PrimFloat.is_finite x = true /\ (Rabs (B2R (Prim2B x)) <= bpow radix2 1022)%R) b ->
+  (Z.of_nat (length a) < 2 ^ 50) ->
+  PrimFloat.is_finite (frelative_distance a b) = true /\ (0 <=? frelative_distance a b)%float = true.
+Proof. exact float_relative_distance_vector_range. Qed.
+
+(* ================= (I) the remaining criteria (Model/Termination2.v): MinVariation period mode, TargetProximity, Noise ================= *)
+(* MinVariation with a period interval (clock value `elapsed`, shuffle oracle `perm`, any threshold test `check`) fires exactly when
+   the period has elapsed, the (compacted) state has at least two entries, and the threshold test passes on the retained window *)
+Theorem C18_period_fires_iff : forall (F : Type) (check : list (list F) -> bool) period st elapsed perm f,
+  snd (mvp_update_and_check check period st elapsed perm f) = true <->
+  period <= elapsed /\ (2 <= length (mvp_compact perm (st ++ [(elapsed, f)])))%nat /\
+  check (map snd (skipn (drain_count (mvp_compact perm (st ++ [(elapsed, f)])) (elapsed - period)) (mvp_compact perm (st ++ [(elapsed, f)])))) = true.
+Proof. exact @mvp_fires_iff. Qed.
+Theorem C18_period_is_termination_iff : forall (F : Type) (check : list (list F) -> bool) period glob st elapsed perm ph best,
+  snd (mvp_is_termination check period glob st elapsed perm ph best) = true <->
+  exists f, best = Some f /\ (glob = true \/ ph = 2%nat) /\ snd (mvp_update_and_check check period st elapsed perm f) = true.
+Proof. exact @mvp_is_termination_iff. Qed.
+(* which window: nothing older than the period -> everything is kept *)
+Theorem C18_period_window_all_inside : forall (F : Type) (l : list (Z * list F)) earliest,
+  rposition l earliest = None -> skipn (drain_count l earliest) l = l.
+Proof. exact @window_all_inside. Qed.
+(* at least two entries inside the period: the window is exactly the maximal suffix of entries inside the period ... *)
+Theorem C18_period_window_is_suffix_inside_period : forall (F : Type) (l : list (Z * list F)) earliest p,
+  rposition l earliest = Some p -> (2 <= p)%nat ->
+  exists pre x w, l = pre ++ x :: w /\ skipn (drain_count l earliest) l = w /\ length w = p /\
+    forallb (fun e => earliest <=? fst e) w = true /\ (earliest <=? fst x) = false.
+Proof. exact @window_two_or_more. Qed.
+(* ... which for time stamps in non-decreasing order (monotone clock) is the set of all entries inside the period *)
+Theorem C18_period_window_sorted_is_filter : forall (F : Type) (l : list (Z * list F)) earliest p,
+  Sorted.StronglySorted (fun a b => fst a <= fst b) l -> rposition l earliest = Some p -> (2 <= p)%nat ->
+  skipn (drain_count l earliest) l = filter (fun e => earliest <=? fst e) l.
+Proof. exact @window_sorted_filter. Qed.
+(* fewer than two inside: the last two entries are kept - except for a state of exactly three entries *)
+Theorem C18_period_window_keep_two : forall (F : Type) (l : list (Z * list F)) earliest p,
+  rposition l earliest = Some p -> (p < 2)%nat ->
+  skipn (drain_count l earliest) l =
+    if Nat.ltb (length l) 3 then l else if Nat.ltb 3 (length l) then skipn (length l - 2) l else skipn (length l - p) l.
+Proof. exact @window_keep_two. Qed.
+Theorem C18_period_three_entries_window_of_one : forall (F : Type) (a b c : Z * list F) earliest,
+  (earliest <=? fst c) = true -> (earliest <=? fst b) = false ->
+  skipn (drain_count [a; b; c] earliest) [a; b; c] = [c].
+Proof. exact @window_three_entries_one_inside. Qed.
+(* the compaction of more than 1000 entries keeps only entries that were there, in time order, one in ten for a genuine shuffle *)
+Theorem C18_period_compaction : forall (F : Type) (perm : list nat) (values : list (Z * list F)), (1000 < length values)%nat ->
+  let r := mvp_compact perm values in
+  (forall e, In e r -> In e values) /\ Sorted.StronglySorted (fun a b => fst a <= fst b) r /\
+  (Permutation.Permutation perm (seq 0 (length values)) -> length r = ((length values + 9) / 10)%nat).
+Proof. exact @mvp_compact_spec. Qed.
+Theorem C18_nonvacuous_period :
+  let chk := fun rows => check_threshold rows (1 # 16)%Q in
+  mvp_update_and_check chk 1000 [(0, [9%Q]); (600, [7%Q])] 1700 [] [9%Q] = ([(1700, [9%Q])], true) /\
+  mvp_update_and_check chk 1000 [(0, [9%Q]); (100, [9%Q]); (600, [7%Q])] 1700 [] [9%Q] = ([(600, [7%Q]); (1700, [9%Q])], false) /\
+  mvp_update_and_check chk 1000 [(0, [9%Q]); (900, [7%Q])] 1700 [] [7%Q] = ([(900, [7%Q]); (1700, [7%Q])], true) /\
+  snd (mvp_update_and_check chk 1000 [(0, [9%Q])] 999 [] [9%Q]) = false.
+Proof. exact period_examples. Qed.
+(* TargetProximity fires exactly when a best solution exists and relative_distance(target, fitness) < threshold:
+   through squares, and with the real square root *)
+Theorem C18_target_proximity_fires_iff : forall target thr best,
+  tp_is_termination target thr best = true <-> exists f, best = Some f /\ (0 < thr)%Q /\ (rel_sumsq target f < thr * thr)%Q.
+Proof. exact tp_is_termination_iff. Qed.
+Theorem C18_target_proximity_fires_iff_distance : forall target thr f,
+  tp_is_termination target thr (Some f) = true <-> (sqrt (Q2R (rel_sumsq target f)) < Q2R thr)%R.
+Proof. exact tp_fires_iff_distance. Qed.
+Theorem C18_nonvacuous_target_proximity :
+  tp_is_termination [1%Q] (1 # 2) (Some [2%Q]) = false /\ tp_is_termination [1%Q] (33 # 64) (Some [2%Q]) = true /\
+  tp_is_termination [1%Q] (1 # 2) None = false /\ (rel_sumsq [1; 4] [2; 1] == 13 # 16)%Q.
+Proof. exact target_examples. Qed.
+(* Noise::generate: unchanged without a hit; value 0 -> the draw itself; otherwise value * (1 + u) (addition) or value * u (ratio) *)
+Theorem C18_noise_no_hit : forall add u value, noise_generate add false u value = value.
+Proof. exact noise_no_hit. Qed.
+Theorem C18_noise_hit_zero : forall add u value, (value == 0)%Q -> noise_generate add true u value = u.
+Proof. exact noise_hit_zero. Qed.
+Theorem C18_noise_hit_addition : forall u value, ~ (value == 0)%Q -> (noise_generate true true u value == value * (1 + u))%Q.
+Proof. exact noise_hit_addition. Qed.
+Theorem C18_noise_hit_ratio : forall u value, ~ (value == 0)%Q -> (noise_generate false true u value == value * u)%Q.
+Proof. exact noise_hit_ratio. Qed.
